@@ -315,13 +315,10 @@ def _runs(elts):
 def _name_template(e):
     if not isinstance(e, ast.Call):
         return None
-    names = [a for a in e.args if isinstance(a, ast.Name) and len(a.id) <= 2]
-    if len(names) != 1:
+    if len(e.args) != 1 or not isinstance(e.args[0], ast.Name) or e.keywords:
         return None
     c = copy.deepcopy(e)
-    for a in c.args:
-        if isinstance(a, ast.Name) and len(a.id) <= 2:
-            a.id = "_v"
+    c.args[0].id = "_v"
     return ast.dump(c)
 
 
@@ -400,6 +397,33 @@ def shape(node, k):
             out.append(("Val", n))
 
     rec(_strip_raise_messages(node))
+    return out
+
+
+def piece_key(piece, k):
+    """Alignment key of a piece: what it defines / tests, with the kind abstracted.  Pieces of different
+    kinds that play the same role get the same key, whatever their position in the function."""
+    n = piece.node
+    if isinstance(n, ast.Assign):
+        return ("assign", norm_ident(ast.unparse(n.targets[0]), k))
+    if isinstance(n, ast.AugAssign):
+        return ("aug", norm_ident(ast.unparse(n.target), k))
+    if isinstance(n, ast.If):
+        return ("if", norm_ident(ast.unparse(n.test), k))
+    if isinstance(n, ast.keyword):
+        return ("kw", norm_ident(n.arg or "", k))
+    if isinstance(n, ast.Expr) and isinstance(n.value, ast.Call):
+        return ("call", norm_ident(ast.unparse(n.value.func), k), norm_ident(ast.unparse(n.value)[:60], k))
+    return ("expr", norm_ident(ast.unparse(n)[:80], k) if isinstance(n, ast.AST) else "")
+
+
+def align(buckets, ks):
+    """Order every kind's pieces so that pieces with equal keys line up (stable within equal keys)."""
+    out = {}
+    for k in ks:
+        keyed = [(piece_key(p, k), i, p) for i, p in enumerate(buckets[k])]
+        keyed.sort(key=lambda t: (repr(t[0]), t[1]))
+        out[k] = [p for _, _, p in keyed]
     return out
 
 
